@@ -1,7 +1,6 @@
 import asyncio
 import sys
 from urllib.parse import urlsplit
-from .. import exceptions
 
 import tornado.web
 import tornado.websocket
@@ -167,10 +166,11 @@ class WebSocket:  # pragma: no cover
 
     async def send(self, message):
         try:
-            self.tornado_handler.write_message(
+            await self.tornado_handler.write_message(
                 message, binary=isinstance(message, bytes))
         except tornado.websocket.WebSocketClosedError:
-            raise exceptions.EngineIOError()
+            # (a transport failure, reported like the other drivers do)
+            raise OSError()
 
     async def wait(self):
         msg = await self.tornado_handler.get_next_message()
